@@ -9,8 +9,25 @@ def sz(ctx, quick, thorough):
     return quick if ctx.tier == "quick" else thorough
 
 
+SMALL_CFG = "INIT SInit\nNEXT SNext\nINVARIANT EmitInput\nCHECK_DEADLOCK FALSE\n"
+
+
+def small_scope(ctx, chk, quick_n):
+    """Exhaustive small scope (spec/SmallScope.tla): TLC enumerates every triangle x triangle operation and every
+    quadrilateral self-union on the 3x3 lattice; quick replays a seeded sample, thorough all of them."""
+    hist, n = generate_histories(ctx, "SmallScope", SMALL_CFG)
+    if ctx.tier == "quick":
+        done = replay_histories(ctx, hist, "replay-small", limit=quick_n, seed_shuffle=ctx.seed, event_triage=True,
+                                extra_args=["-chk", chk])
+        ctx.notes.append("small scope of %d operations enumerated by TLC; %d of them (seeded sample) replayed" % (n, done))
+    else:
+        done = replay_histories(ctx, hist, "replay-small", event_triage=True, extra_args=["-chk", chk])
+        ctx.notes.append("small scope of %d operations enumerated by TLC and replayed completely (%d)" % (n, done))
+
+
 def run_C01(ctx):
     drive_and_validate(ctx, [{"driver": "C01", "n": sz(ctx, 3200, 160000), "probes": 48}])
+    small_scope(ctx, "C01", 8000)
     # component machine behind C01: the scan-beam theorem of Sweep.tla (model-checked) and the implementation's
     # active edge lists against S1..S5 (advisory: necessary conditions of the design, not the property itself)
     if ctx.tier == "quick":
@@ -22,6 +39,7 @@ def run_C01(ctx):
 
 def run_C02(ctx):
     drive_and_validate(ctx, [{"driver": "C02", "n": sz(ctx, 3200, 120000), "probes": 48}])
+    small_scope(ctx, "C02,UNI", 8000)
 
 
 def run_C06(ctx):
